@@ -243,6 +243,9 @@ class Engine:
 
     def eq(self, st, a, b):
         """Python a == b as z3 Bool."""
+        if getattr(self.reg, 'dyn', False) and (a.t.name() == 'Dyn' or b.t.name() == 'Dyn' or isinstance(a.t, (PyTupT, RecT, IterT)) or isinstance(b.t, (PyTupT, RecT, IterT))):
+            from . import dyn
+            return dyn.EQ(dyn.dynify(self, st, a), dyn.dynify(self, st, b))
         if a.t == NONE and b.t == NONE: return z3.BoolVal(True)
         if isinstance(a.t, ObjT) or isinstance(b.t, ObjT):
             if isinstance(a.t, ObjT) and isinstance(b.t, ObjT): return z3.BoolVal(a.ref == b.ref)
